@@ -1,6 +1,7 @@
 CONSTANTS
   Classes <- ClassesDef
   MaxLen = 2
+  Budget = 2
 INIT Init
 NEXT Next
 INVARIANTS OptionalOmitted Emit
